@@ -833,6 +833,11 @@ class Client(BaseClient):
                         if last not in ([b"."], [b".."]):
                             raise ValueError(f"no name in listing line {line!r}")
                         continue
+                    if len(name.parts) != 1 or name.is_absolute():
+                        # an entry of a directory is a plain name: joined to
+                        # local paths by download, "../x" would leave the
+                        # destination
+                        raise ValueError(f"listing line {line!r} does not name an entry of the directory")
                     stat = cls.path / name, info
                     if info.get("type") == "dir" and recursive:
                         cls.directories.append(stat)
